@@ -303,6 +303,147 @@ fn vectors(rep: &mut Report) {
     }
 }
 
+/// Values with a common ancestor: the two list-valued attributes that can grow (`PasswordAlgorithms::add`,
+/// `UnknownAttributes::add`) are cloned, the clones are extended differently (same number of entries, other content; other
+/// numbers of entries) and everything is encoded in several orders, also before the clones are taken. Every encode must give
+/// the reference bytes of the list that very value holds.
+fn diverging_clones(rep: &mut Report) {
+    use stun_rs::attributes::stun::{PasswordAlgorithm, PasswordAlgorithms, UnknownAttributes};
+    use stun_rs::{Algorithm, AlgorithmId, StunAttribute};
+    #[derive(Clone, Debug, PartialEq)]
+    enum E {
+        Pa(u16, Vec<u8>),
+        Ua(u16),
+    }
+    #[derive(Clone)]
+    enum Obj {
+        Pa(PasswordAlgorithms),
+        Ua(UnknownAttributes),
+    }
+    #[derive(Clone, Copy, Debug)]
+    enum Op {
+        Clone(usize),
+        Add(usize, usize), // object, element (0 = x, 1 = y, 2 = z)
+        Encode(usize),
+    }
+    use Op::*;
+    // object 0 is the ancestor
+    let programs: Vec<Vec<Op>> = vec![
+        vec![Clone(0), Clone(0), Add(1, 0), Add(2, 1), Encode(1), Encode(2), Encode(0)],
+        vec![Clone(0), Clone(0), Add(1, 0), Add(2, 1), Encode(2), Encode(1), Encode(1), Encode(2)],
+        vec![Encode(0), Clone(0), Clone(0), Add(1, 0), Add(2, 1), Encode(0), Encode(1), Encode(2), Encode(0)],
+        vec![Clone(0), Add(1, 0), Encode(1), Clone(1), Add(2, 1), Add(1, 2), Encode(2), Encode(1), Encode(0)],
+        vec![Clone(0), Add(0, 0), Add(1, 1), Encode(0), Encode(1), Clone(1), Add(2, 2), Add(1, 0), Encode(1), Encode(2)],
+        vec![Clone(0), Add(1, 0), Encode(1), Add(1, 1), Encode(1), Clone(0), Add(2, 2), Add(2, 1), Encode(2), Encode(1)],
+    ];
+    let pa_menu = vec![E::Pa(1, vec![]), E::Pa(2, vec![]), E::Pa(1, vec![1, 2, 3]), E::Pa(2, vec![1, 2, 3]), E::Pa(7, vec![9])];
+    let ua_menu = vec![E::Ua(0x0001), E::Ua(0x8000), E::Ua(0xFFFF), E::Ua(0x0014)];
+    let add = |o: &mut Obj, e: &E| match (o, e) {
+        (Obj::Pa(p), E::Pa(a, prm)) => p.add(PasswordAlgorithm::new(Algorithm::new(AlgorithmId::from(*a), if prm.is_empty() { None } else { Some(prm.as_slice()) }))),
+        (Obj::Ua(u), E::Ua(c)) => u.add(*c),
+        _ => unreachable!(),
+    };
+    let logical = |family: &str, l: &[E]| -> L {
+        match family {
+            "UnknownAttributes" => L::UnknownAttributes(l.iter().map(|e| if let E::Ua(c) = e { *c } else { 0 }).collect()),
+            _ => L::PasswordAlgorithms(l.iter().map(|e| if let E::Pa(a, p) = e { (*a, p.clone()) } else { (0, vec![]) }).collect()),
+        }
+    };
+    for (family, menu) in [("PasswordAlgorithms", &pa_menu), ("UnknownAttributes", &ua_menu)] {
+        for base_len in 0..=2usize {
+            for (pi, prog) in programs.iter().enumerate() {
+                for x in 0..menu.len() {
+                    for y in 0..menu.len() {
+                        for z in 0..menu.len().min(3) {
+                            if x == y {
+                                continue;
+                            }
+                            rep.eval();
+                            let elems = [&menu[x], &menu[y], &menu[z]];
+                            let base: Vec<E> = (0..base_len).map(|i| menu[(x + i + 1) % menu.len()].clone()).collect();
+                            let mut o0 = if family == "PasswordAlgorithms" { Obj::Pa(PasswordAlgorithms::default()) } else { Obj::Ua(UnknownAttributes::default()) };
+                            let mut base = base;
+                            if family == "UnknownAttributes" {
+                                base.dedup();
+                            }
+                            for e in &base {
+                                add(&mut o0, e);
+                            }
+                            let mut objs = vec![o0];
+                            let mut lists = vec![base.clone()];
+                            let mut ok = true;
+                            for (step, op) in prog.iter().enumerate() {
+                                match *op {
+                                    Clone(i) => {
+                                        let c = objs[i].clone();
+                                        objs.push(c);
+                                        let l = lists[i].clone();
+                                        lists.push(l);
+                                    }
+                                    Add(i, e) => {
+                                        add(&mut objs[i], elems[e]);
+                                        // (UnknownAttributes::add keeps one entry per code)
+                                        if !(family == "UnknownAttributes" && lists[i].contains(elems[e])) {
+                                            lists[i].push(elems[e].clone());
+                                        }
+                                    }
+                                    Encode(i) => {
+                                        // (an UNKNOWN-ATTRIBUTES / PASSWORD-ALGORITHMS without entries is legal on the wire)
+                                        let lm = menu::lmsg(1, 3, [step as u8; 12], vec![L::ErrorCode(420, "".into()), logical(family, &lists[i])]);
+                                        if lists[i].is_empty() && family == "PasswordAlgorithms" {
+                                            continue;
+                                        }
+                                        let attr: StunAttribute = match &objs[i] {
+                                            Obj::Pa(p) => p.clone().into(),
+                                            Obj::Ua(u) => u.clone().into(),
+                                        };
+                                        // encode the value itself (not only a clone of it): the message takes the clone, the
+                                        // value is encoded through a second message built from a fresh clone afterwards
+                                        let mut enc_ok = true;
+                                        for _round in 0..2 {
+                                            let msg = stun_rs::StunMessageBuilder::new(stun_rs::MessageMethod::try_from(1).unwrap(), stun_rs::MessageClass::ErrorResponse)
+                                                .with_transaction_id(stun_rs::TransactionId::from([step as u8; 12]))
+                                                .with_attribute(crate::refs::codec::to_subject(&L::ErrorCode(420, "".into()), None).unwrap())
+                                                .with_attribute(attr.clone())
+                                                .build();
+                                            let reference = ref_encode(&lm, None);
+                                            match cu::encode_into(&msg, reference.len() + 32, 0x5A) {
+                                                Ok(Ok((n, b))) if b[..n.min(b.len())] == reference[..] => {}
+                                                other => {
+                                                    let got = match other {
+                                                        Ok(Ok((n, b))) => hex(&b[..n.min(b.len())]),
+                                                        Ok(Err(e)) => format!("error {}", e),
+                                                        Err(p) => format!("panic {}", p),
+                                                    };
+                                                    rep.violate(
+                                                        format!("wire-bytes-differ/{}/values-derived-from-a-common-ancestor", family),
+                                                        format!("program {} step {}: library {} reference {}", pi, step, got, hex(&reference)),
+                                                        json!({"kind": "clone-program", "family": family, "ancestor": format!("{:?}", base), "x": format!("{:?}", elems[0]), "y": format!("{:?}", elems[1]), "z": format!("{:?}", elems[2]), "program": format!("{:?}", prog), "failing_step": step, "note": "object 0 is the ancestor; Clone(i) appends a clone of object i; Add(i, e) calls add on object i with element x/y/z; Encode(i) encodes a Binding error response [ERROR-CODE 420, object i]"}),
+                                                    );
+                                                    enc_ok = false;
+                                                    break;
+                                                }
+                                            }
+                                        }
+                                        if !enc_ok {
+                                            ok = false;
+                                            break;
+                                        }
+                                    }
+                                }
+                            }
+                            if ok {
+                                rep.nontrivial_by_construction();
+                                rep.sym("diverging-clones");
+                            }
+                        }
+                    }
+                }
+            }
+        }
+    }
+}
+
 pub fn run(ctx: &RunCtx) -> i32 {
     let thorough = ctx.thorough();
     let full = menu::body_menu(true);
@@ -477,6 +618,11 @@ pub fn run(ctx: &RunCtx) -> i32 {
         r.sym("xor-special-addresses");
         shared.merge(r);
     }
+    {
+        let mut r = Report::new();
+        diverging_clones(&mut r);
+        shared.merge(r);
+    }
     // ignorable bits, every attribute instance of the full menu
     full.par_iter().for_each(|l| {
         let mut r = Report::new();
@@ -507,12 +653,12 @@ pub fn run(ctx: &RunCtx) -> i32 {
         rep,
         Finish {
             level: "exploration",
-            rule: format!("library bytes compared with the independent reference writer for every message with 0..=2 body attributes over the {}-entry menu x 8 tails (thorough: triples with the full tail), all 16384 message types both directions, XOR attributes under 123 transaction ids, 400 error codes, u16 / ICMP / string-length sweeps, the non-last-attribute sweeps (every blob / string length, walking address bytes, single-bit integers, list lengths 0..=8, UNKNOWN-ATTRIBUTES lists of every length up to 600 and up to 32,760 entries, PASSWORD-ALGORITHMS lists up to 200 / 4096 entries), deep messages (as C01: offsets around 256..4096 / 32768, long runs, repeats, rotations of every kind, quads) without and with the full tail, the offset family of C01 (every 4-aligned body offset 0..=4200 / 16,400, around multiples of 4096 / 1024, every offset 65,300..=65,532) and XOR-* addresses with special wire forms, RFC 5769 vectors (both parsers, re-encoded with the vector's padding byte); every ignorable byte of every menu attribute set to 5 patterns, every ignorable bit alone, all together, all 2^k subsets when k<=10. Non-trivial = bytes equal / perturbed message decodes to the canonical value (by public accessors and by the value types' own equality)", n),
+            rule: format!("library bytes compared with the independent reference writer for every message with 0..=2 body attributes over the {}-entry menu x 8 tails (thorough: triples with the full tail), all 16384 message types both directions, XOR attributes under 123 transaction ids, 400 error codes, u16 / ICMP / string-length sweeps, the non-last-attribute sweeps (every blob / string length, walking address bytes, single-bit integers, list lengths 0..=8, UNKNOWN-ATTRIBUTES lists of every length up to 600 and up to 32,760 entries, PASSWORD-ALGORITHMS lists up to 200 / 4096 entries), deep messages (as C01: offsets around 256..4096 / 32768, long runs, repeats, rotations of every kind, quads) without and with the full tail, the offset family of C01 (every 4-aligned body offset 0..=4200 / 16,400, around multiples of 4096 / 1024, every offset 65,300..=65,532) and XOR-* addresses with special wire forms, RFC 5769 vectors (both parsers, re-encoded with the vector's padding byte); values derived from a common ancestor (PASSWORD-ALGORITHMS / UNKNOWN-ATTRIBUTES ancestors of 0..=2 entries, 6 clone / add / encode programs over up to three objects, every ordered pair of distinct elements from a 5 / 4-entry menu: clones that grew to the same length with other content, encodes before and after cloning, in both orders, twice); every ignorable byte of every menu attribute set to 5 patterns, every ignorable bit alone, all together, all 2^k subsets when k<=10. Non-trivial = bytes equal / perturbed message decodes to the canonical value (by public accessors and by the value types' own equality)", n),
             assumptions: vec![
                 "R-codec follows the library for two RFC ambiguities: the last PASSWORD-ALGORITHMS entry is padded by the attribute padding, RESPONSE-PORT has length 2".into(),
                 "reference codec written from the RFCs by the harness author; checked against RFC 5769 vectors at start-up".into(),
             ],
-            required_symbols: vec!["deep-messages", "offset-family", "xor-special-addresses", "sweep-message-types", "sweep-non-last-lengths-addresses-bits-lists", "sweep-xor-ids", "rfc5769-vectors", "perturbed-attributes", "full-subset-walks", "ErrorCode"],
+            required_symbols: vec!["deep-messages", "offset-family", "xor-special-addresses", "sweep-message-types", "sweep-non-last-lengths-addresses-bits-lists", "sweep-xor-ids", "rfc5769-vectors", "perturbed-attributes", "full-subset-walks", "ErrorCode", "diverging-clones"],
             min_outcomes: 2,
             exhaustive: true,
             bounds: json!({"L": if thorough {3} else {2}, "menu": n}),
